@@ -271,6 +271,19 @@ func verifSynthSPM() *Vocabulary {
 // byte tokens carry every token type.  A vocabulary is a pure function of its index, which is part of its name
 // ("rbpe<idx>", "rspm<idx>"), so a case line replays without the seed.
 
+// verifSpecialShapes: control-token literals of many shapes (mistral-style brackets, braces, punctuation runs, a
+// plain word, a single character, one a prefix of another, one containing another), a random subset in random
+// order (the order is the order of the splitting passes).
+func verifSpecialShapes(r *zzverif.Rng, out *zzverif.Out) []string {
+	all := []string{"[INST]", "[/INST]", "[TOOL_CALLS]", "{{x}}", "###", "##", "STOP", "§", "[INST", "the", "<|sys|>", "<|end|>", "|", "[[INST]]", "</s>", "a b"}
+	var sel []string
+	for _, i := range verifPerm(r, len(all))[:r.Range(3, 7)] {
+		sel = append(sel, all[i])
+		out.Count("vocab_special_shape_" + map[bool]string{true: "angle", false: "no_angle"}[strings.ContainsAny(all[i], "<>")])
+	}
+	return sel
+}
+
 func verifRandBPE(enc [256]int, pre string, idx int, out *zzverif.Out) *verifTok {
 	r := zzverif.NewRng(uint64(idx)*7919 + 17).Fork()
 	v := &Vocabulary{BOS: -1, EOS: -1, EOT: -1}
@@ -376,8 +389,9 @@ func verifRandBPE(enc [256]int, pre string, idx int, out *zzverif.Out) *verifTok
 			}
 		}
 	}
-	add("<|sys|>", TOKEN_TYPE_CONTROL)
-	add("<|end|>", TOKEN_TYPE_CONTROL)
+	for _, sp := range verifSpecialShapes(r, out) {
+		add(sp, TOKEN_TYPE_CONTROL)
+	}
 	out.Count("vocab_bpe_random")
 	for k := range shape {
 		out.Count("vocab_bpe_shape_" + k)
@@ -426,6 +440,9 @@ func verifRandSPM(idx int, out *zzverif.Out) *verifTok {
 		}
 		add(p, TOKEN_TYPE_NORMAL, -float32(r.Intn(ties)))
 		pool = append(pool, strings.ReplaceAll(p, "▁", " "))
+	}
+	for _, sp := range verifSpecialShapes(r, out) {
+		add(sp, []uint32{TOKEN_TYPE_CONTROL, TOKEN_TYPE_CONTROL, TOKEN_TYPE_USER_DEFINED}[r.Intn(3)], 0)
 	}
 	// characters without a piece are what the byte fallback is for
 	pool = append(pool, "z", "q", "é", "ß", "Ж", "你", "界", "語", "👍", "€", "\u00a0", "\t", "Z", "k")
@@ -489,7 +506,7 @@ func verifPoolSegs(r *zzverif.Rng, tk *verifTok, out *zzverif.Out) []verifSeg {
 		out.Count("seg_vocab_pool")
 		if r.Chance(1, 8) {
 			for _, sp := range tk.specials {
-				if strings.HasPrefix(sp, "<") && !strings.HasPrefix(sp, "<0x") && r.Chance(1, 3) {
+				if !strings.HasPrefix(sp, "<0x") && r.Chance(1, 3) {
 					segs = append(segs, verifSeg{sp, true})
 					out.Count("seg_special")
 					break
@@ -891,24 +908,26 @@ func (tk *verifTok) diffClass(text, dec string) string {
 		if strings.ReplaceAll(text, "~", " ") == dec {
 			return "diff=tilde-to-space"
 		}
-		sp := tk.specials
-		x := text
-		n := 0
-		for _, id := range []int{105, 106} {
-			if id < len(tk.vocab.Values) && len(sp) > 0 {
-				lit := tk.vocab.Values[id]
-				raw, _ := tk.tp.Decode([]int32{int32(id)})
-				if raw != lit && strings.Contains(x, lit) {
-					x = strings.ReplaceAll(x, lit, raw)
+		// a special token whose vocabulary string does not decode to itself (non-ASCII characters go through
+		// the rune->byte unmapping like ordinary tokens): replace its occurrences (as the reference splitting
+		// finds them) by what Decode makes of the id
+		x, n := "", 0
+		for _, f := range verifFragments(tk.specials, text) {
+			if f.sp {
+				raw, _ := tk.tp.Decode([]int32{tk.vocab.Encode(f.v)})
+				if raw != f.v {
 					n++
 				}
+				x += raw
+			} else {
+				x += f.v
 			}
 		}
 		if n > 0 && x == dec {
-			return "diff=token-105-106-literal"
+			return "diff=special-literal-not-self-decoding"
 		}
 		if n > 0 && strings.ReplaceAll(x, "~", " ") == dec {
-			return "diff=tilde-to-space+token-105-106-literal"
+			return "diff=tilde-to-space+special-literal-not-self-decoding"
 		}
 		return "diff=other"
 	}
@@ -1100,6 +1119,9 @@ func (tk *verifTok) runCall(tmpl *verifTok, enc [256]int, c verifCall, cl string
 	}
 	if nsp > 0 && len(frs) <= 64 {
 		out.Count("l2_special_checked")
+		if !strings.ContainsAny(text, "<>") {
+			out.Count("l2_special_checked_text_without_angle_brackets")
+		}
 		out.Count(fmt.Sprintf("l2_special_distinct_in_text_%d", min(nsp, 5)))
 		var want []int32
 		ref := tmpl.clone(strings.HasPrefix(tmpl.name, "llama32"))
@@ -1452,7 +1474,7 @@ func TestVerifC20(t *testing.T) {
 			if k > 1 && len(tk.specials) > 0 {
 				var named []string
 				for _, sp := range tk.specials {
-					if strings.HasPrefix(sp, "<") && !strings.HasPrefix(sp, "<0x") {
+					if !strings.HasPrefix(sp, "<0x") {
 						named = append(named, sp)
 					}
 				}
